@@ -286,6 +286,23 @@ Definition cfg_ok (c : config) (k : nat) : bool :=
                     && (if is_triplet c then (Z.of_nat k <? sz_tr_pre_slow c)%Z else true)
   else true.
 
+(* argument validation of the trainer constructors / register_cell (argtest.gt / argtest.neq -> ValueError): time
+   constants > 0 (slow > fast for the triplet trainers), pair rates <> 0 for the triplet trainers, and the trace reducers
+   refuse a zero amplitude (|eta| for STDP / MSTDP / MSTDPET, |beta/alpha| for the slow triplet traces) *)
+Definition nz (x : R) : bool := neb N x (zero N).
+Definition hp_ok (c : config) : bool :=
+  gtb N (c_dt c) (zero N) && gtb N (c_tc_post c) (zero N) && gtb N (c_tc_pre c) (zero N) &&
+  match c_trainer c with
+  | STDP | MSTDP => nz (amp_post c) && nz (amp_pre c)
+  | StableSTDP => true
+  | MSTDPET => nz (amp_post c) && nz (amp_pre c) && gtb N (c_tc_elig c) (zero N)
+  | TripletSTDP =>
+      nz (c_lr_post c) && nz (c_lr_pre c) && gtb N (c_tc_post_slow c) (c_tc_post c) && gtb N (c_tc_pre_slow c) (c_tc_pre c)
+      && nz (amp_post_slow c) && nz (amp_pre_slow c)
+  | StableTripletSTDP =>
+      nz (c_lr_post c) && nz (c_lr_pre c) && gtb N (c_tc_post_slow c) (c_tc_post c) && gtb N (c_tc_pre_slow c) (c_tc_pre c)
+  end.
+
 (* fresh cell, B samples *)
 Definition init_batch (B : nat) : list sstate := repeat s_init B.
 End Model.
